@@ -1163,6 +1163,11 @@ func (c *Conn) readAll(r io.Reader, size int) (*[]byte, error) {
 		n, err := r.Read((*pbuf)[len(*pbuf):cap(*pbuf)])
 		if n > 0 {
 			*pbuf = (*pbuf)[:len(*pbuf)+n]
+			// the pooled buffer may be bigger than the limit.
+			if c.isMessageTooLarge(len(*pbuf)) {
+				c.Engine.BodyAllocator.Free(pbuf)
+				return nil, ErrMessageTooLarge
+			}
 		}
 		if err != nil {
 			if err == io.EOF {
